@@ -184,6 +184,7 @@ from .view import (
     FSTView_Dict,
     FSTView_MatchMapping,
     FSTView_Compare,
+    FSTView_Assign_targets,
     FSTView_decorator_list,
     FSTView_comprehension_ifs,
     FSTView_arguments,
@@ -5343,6 +5344,7 @@ _MATCH_FUNCS = {
     MQMAX.NG:                     _match_quantifier_invalid_location,
     MQN:                          _match_quantifier_invalid_location,
     FSTView:                      _match_FSTView,
+    FSTView_Assign_targets:       _match_FSTView,
     FSTView_decorator_list:       _match_FSTView,
     FSTView_comprehension_ifs:    _match_FSTView,
     FSTView_Global_Nonlocal:      _match_FSTView,
